@@ -54,17 +54,61 @@ theorem intergenicLoop_sound (start «end» pad : Int) (hpad : 0 ≤ pad) :
       · rename_i hov
         exact tail last (by omega) (by omega) ha
 
-/-- `find_intergenic_areas`: soundness -/
+theorem insertGene_perm (x : Gene) (l : List Gene) : (insertGene x l).Perm (x :: l) := by
+  induction l with
+  | nil => exact List.Perm.refl _
+  | cons y ys ih =>
+    unfold insertGene
+    split
+    · exact List.Perm.refl _
+    · exact ((List.Perm.cons y ih).trans (List.Perm.swap x y ys))
+
+theorem sortGenes_perm (l : List Gene) : (sortGenes l).Perm l := by
+  induction l with
+  | nil => exact List.Perm.refl _
+  | cons x xs ih =>
+    show (insertGene x (sortGenes xs)).Perm (x :: xs)
+    exact (insertGene_perm x _).trans (List.Perm.cons x ih)
+
+theorem mem_sortGenes (l : List Gene) (g : Gene) : g ∈ sortGenes l ↔ g ∈ l := (sortGenes_perm l).mem_iff
+
+theorem insertGene_sorted (x : Gene) (l : List Gene) (h : sortedByStart l) : sortedByStart (insertGene x l) := by
+  induction l with
+  | nil => exact ⟨fun h hh => absurd hh List.not_mem_nil, trivial⟩
+  | cons y ys ih =>
+    unfold insertGene
+    obtain ⟨h1, h2⟩ := h
+    split
+    · rename_i hxy
+      refine ⟨?_, h1, h2⟩
+      intro z hz
+      rcases List.mem_cons.1 hz with rfl | hz
+      · exact hxy
+      · exact Int.le_trans hxy (h1 z hz)
+    · rename_i hxy
+      refine ⟨?_, ih h2⟩
+      intro z hz
+      rcases List.mem_cons.1 ((insertGene_perm x ys).mem_iff.1 hz) with rfl | hz
+      · omega
+      · exact h1 z hz
+
+/-- the sweep always sees the genes ordered by start -/
+theorem sortGenes_sorted (l : List Gene) : sortedByStart (sortGenes l) := by
+  induction l with
+  | nil => exact trivial
+  | cons x xs ih => exact insertGene_sorted x _ ih
+
+/-- `find_intergenic_areas`: soundness, for genes given in any order -/
 theorem findIntergenic_sound (start «end» minLen pad : Int) (genes : List Gene) (hpad : 0 ≤ pad)
-    (hsorted : sortedByStart genes) (a : Int × Int)
-    (ha : a ∈ findIntergenic start «end» genes minLen pad) :
+    (a : Int × Int) (ha : a ∈ findIntergenic start «end» genes minLen pad) :
     start ≤ a.1 ∧ a.2 ≤ «end» ∧ minLen ≤ a.2 - a.1 ∧
       ∀ g ∈ genes, ∀ i, a.1 ≤ i → i < a.2 → ¬ g.core pad i := by
   unfold findIntergenic at ha
   rw [List.mem_filter] at ha
   obtain ⟨hmem, hlen⟩ := ha
-  obtain ⟨h1, h2, _, h4⟩ := intergenicLoop_sound start «end» pad hpad genes start (Int.le_refl _) hsorted a hmem
-  exact ⟨h1, h2, by simpa using hlen, h4⟩
+  obtain ⟨h1, h2, _, h4⟩ := intergenicLoop_sound start «end» pad hpad (sortGenes genes) start (Int.le_refl _)
+    (sortGenes_sorted genes) a hmem
+  exact ⟨h1, h2, by simpa using hlen, fun g hg => h4 g ((mem_sortGenes genes g).2 hg)⟩
 
 theorem sortedByStartB_iff (gs : List Gene) : sortedByStartB gs = true ↔ sortedByStart gs := by
   induction gs with
